@@ -519,6 +519,64 @@ def run_1to2(case, ctx):
     ctx.sample({"version": "gfa1", "lines": lines, "converted": out})
 
 
+def edited_then_converted(ctx, g, lines, vlevel):
+    """an E line is disconnected, given other intervals and added again (the documented way to edit a
+    read-only field); the conversion of the Gfa must then equal the conversion of a Gfa parsed afresh
+    from what the Gfa writes: it depends on the content only, not on what was asked before."""
+    import random
+    rng = random.Random(len(repr(lines)) * 31 + vlevel)
+    es = [l for l in g.lines if l.record_type == "E" and not l.virtual]
+    if not es:
+        return
+    # (every edge has been classified by now: the first conversion asked for it)
+    e = rng.choice(es)
+    side = rng.choice([1, 2])
+    seg = (e.sid1 if side == 1 else e.sid2).line
+    try:
+        slen = int(seg.slen)
+    except Exception:
+        return
+    if slen < 1:
+        return
+    b, en, _k = G.interval(rng, slen)
+
+    def edit():
+        e.disconnect()
+        e.set("beg%d" % side, b)
+        e.set("end%d" % side, en)
+        e.set("alignment", "*")
+        g.add_line(e)
+    rr = call(ctx, "disconnect;edit;add_line(same object)", edit)
+    if not rr.ok:
+        return
+    ctx.count("conversions_after_edit")
+    text = [O.safe_str(l) for l in g.lines if not l.virtual]
+    c1 = call(ctx, "to_gfa1_s (edited Gfa)", g.to_gfa1_s)
+    fr = call(ctx, "Gfa(text of the edited Gfa)", gfapy.Gfa, list(text), version="gfa2", vlevel=vlevel)
+    if not fr.ok:
+        return
+    c2 = call(ctx, "to_gfa1_s (fresh parse)", fr.value.to_gfa1_s)
+    if c1.ok != c2.ok:
+        ctx.violation("conversion-depends-on-history/%s-vs-%s" % (c1.cls(), c2.cls()),
+                      "after re-adding the edited %r: the Gfa converts -> %s, a fresh parse of its text -> %s\n text %r"
+                      % (O.safe_str(e), c1.cls() if not c1.ok else "ok", c2.cls() if not c2.ok else "ok", text))
+        return
+    if c1.ok and not isinstance(c1.value, str):
+        raise RuntimeError("to_gfa1_s returned %r" % (c1.value,))
+    if c1.ok:
+        strip = lambda d: sorted([(x[0], tuple(x[1]) if len(x) > 1 else (),
+                                   tuple(sorted((t for t in (x[2] if len(x) > 2 else ()) if t[0] != "ID"), key=repr)))
+                                  for x in d], key=repr)
+        a = strip(S.canon_doc(S.split_doc(c1.value), "gfa1"))
+        bq = strip(S.canon_doc(S.split_doc(c2.value), "gfa1"))
+        if a != bq:
+            ma = [x for x in a if x not in bq]
+            mb = [x for x in bq if x not in a]
+            ctx.violation("conversion-depends-on-history/%s" % ((ma or mb)[0][0]),
+                          "after re-adding the edited %r: edited Gfa gives %r, fresh parse gives %r\n text %r"
+                          % (O.safe_str(e), ma[:3], mb[:3], text))
+
+
 def run_2to1(case, ctx):
     lines, vlevel = case["lines"], case["vlevel"]
     r = build(ctx, lines, "gfa2", vlevel)
@@ -526,6 +584,17 @@ def run_2to1(case, ctx):
         ctx.violation("valid-document-refused/%s" % r.cls(), "%r: %s" % (lines, str(r.exc)[:200]), prop="C01")
         return
     g = r.value
+    if len(repr(lines)) % 3 == 0:
+        # (on a third of the graphs, at the end: the edit destroys the graph for the other clauses)
+        try:
+            return _run_2to1(case, ctx, g)
+        finally:
+            edited_then_converted(ctx, g, lines, vlevel)
+    return _run_2to1(case, ctx, g)
+
+
+def _run_2to1(case, ctx, g):
+    lines, vlevel = case["lines"], case["vlevel"]
     recs2 = [S.parse_line(l, "gfa2") for l in lines]
     lens = CV.seg_lengths(recs2, "gfa2")
     c = call(ctx, "to_gfa1_s", g.to_gfa1_s)
